@@ -1138,6 +1138,25 @@ def ep_empty(prog: Program) -> RuleResult:
     return r
 
 
+def iter_text(prog: Program) -> RuleResult:
+    """Whether two operands are compared as collections (and whether a value is a collection to match against) is decided by
+    utils.is_iterable.  Text is no collection - and neither is a value of a *subclass* of a text type."""
+    r = RuleResult("ITER-TEXT", "text values, of str / bytes or of a subclass, are never taken for collections", floor=1)
+    # whether two operands are compared as collections is decided by utils.is_iterable: text is no collection - and neither is a value of a
+    # *subclass* of a text type (a str-valued Enum member, class Tag(str), numpy.str_): the exclusion has to be an isinstance test, not a
+    # lookup of the exact type ("listen" == "silent" as sets of characters otherwise)
+    from ..model import walk_local as _wl
+    isit = next((f_ for f_ in prog.functions.values() if f_.name == "is_iterable" and f_.cls is None and f_.module.name.endswith("entity_query_language.utils")), None)
+    if isit is None:
+        raise AnalysisError("ITER-TEXT: entity_query_language.utils.is_iterable vanished")
+    exact = [x for x in _wl(isit.node) if isinstance(x, ast.Compare) and any(isinstance(y, ast.Call) and isinstance(y.func, ast.Name) and y.func.id == "type" for y in ast.walk(x))]
+    inst = [x for x in _wl(isit.node) if isinstance(x, ast.Call) and isinstance(x.func, ast.Name) and x.func.id == "isinstance" and len(x.args) == 2 and "str" in src(x.args[1]) and "bytes" in src(x.args[1])]
+    r.check(bool(inst) and not exact, "is_iterable#text-excluded-with-its-subclasses", f"{isit.module.relpath}:{isit.node.lineno}", src((exact or inst or [isit.node])[0])[:80], "str / bytes values are excluded by isinstance",
+            f"`{src(exact[0])[:60] if exact else 'no isinstance test on (str, bytes)'}` tells text from collections by the exact type: a value of a str subclass counts as a collection and two such "
+            "values are compared as sets of their characters - x.tag != y.tag drops pairs of anagrams, x.mode == NO holds for ON")
+    return r
+
+
 def cmp_apply(prog: Program) -> RuleResult:
     """The verdict of a comparison is the operator applied to the two operand values of *this* binding, computed once per binding:
     the decision table of Comparator.apply_operation, path by path. The result handed back, the truth recorded on the node and the
@@ -1200,18 +1219,6 @@ def cmp_apply(prog: Program) -> RuleResult:
         r.check(key not in bad, f"Comparator.apply_operation#{key}", site(f), f"{len(paths)} paths", good,
                 (bad.get(key) or "") + ": the comparison answers from something other than the operand values of this assignment, so rows are reported that do not satisfy the "
                 "condition, or satisfying rows are dropped")
-    # whether two operands are compared as collections is decided by utils.is_iterable: text is no collection - and neither is a value of a
-    # *subclass* of a text type (a str-valued Enum member, class Tag(str), numpy.str_): the exclusion has to be an isinstance test, not a
-    # lookup of the exact type ("listen" == "silent" as sets of characters otherwise)
-    from ..model import walk_local as _wl
-    isit = next((f_ for f_ in prog.functions.values() if f_.name == "is_iterable" and f_.cls is None and f_.module.name.endswith("entity_query_language.utils")), None)
-    if isit is None:
-        raise AnalysisError("CMP-APPLY: entity_query_language.utils.is_iterable vanished")
-    exact = [x for x in _wl(isit.node) if isinstance(x, ast.Compare) and any(isinstance(y, ast.Call) and isinstance(y.func, ast.Name) and y.func.id == "type" for y in ast.walk(x))]
-    inst = [x for x in _wl(isit.node) if isinstance(x, ast.Call) and isinstance(x.func, ast.Name) and x.func.id == "isinstance" and len(x.args) == 2 and "str" in src(x.args[1]) and "bytes" in src(x.args[1])]
-    r.check(bool(inst) and not exact, "is_iterable#text-excluded-with-its-subclasses", f"{isit.module.relpath}:{isit.node.lineno}", src((exact or inst or [isit.node])[0])[:80], "str / bytes values are excluded by isinstance",
-            f"`{src(exact[0])[:60] if exact else 'no isinstance test on (str, bytes)'}` tells text from collections by the exact type: a value of a str subclass counts as a collection and two such "
-            "values are compared as sets of their characters - x.tag != y.tag drops pairs of anagrams, x.mode == NO holds for ON")
     return r
 
 
@@ -1400,4 +1407,4 @@ def run(prog: Program, tier: str) -> List[RuleResult]:
     from .c03 import domain_cache
 
     _cache.clear()
-    return [guard(lambda: ep_thread(prog)), guard(lambda: ep_neg(prog)), guard(lambda: ep_filter(prog)), guard(lambda: ep_selected(prog)), guard(lambda: ep_union_pass(prog)), guard(lambda: ep_operand(prog)), guard(lambda: domain_cache(prog)), guard(lambda: ep_universal(prog)), guard(lambda: ep_empty(prog)), guard(lambda: ep_quant(prog)), guard(lambda: _ep_bound(prog)), guard(lambda: cmp_apply(prog)), guard(lambda: _live_iter(prog)), guard(lambda: _hv_truth(prog)), guard(lambda: cond_fold(prog)), guard(lambda: _domain_given(prog)), guard(lambda: hv_ident(prog)), guard(lambda: _ident_dedup(prog)), guard(lambda: _pred_once(prog))]
+    return [guard(lambda: ep_thread(prog)), guard(lambda: ep_neg(prog)), guard(lambda: ep_filter(prog)), guard(lambda: ep_selected(prog)), guard(lambda: ep_union_pass(prog)), guard(lambda: ep_operand(prog)), guard(lambda: domain_cache(prog)), guard(lambda: ep_universal(prog)), guard(lambda: ep_empty(prog)), guard(lambda: ep_quant(prog)), guard(lambda: _ep_bound(prog)), guard(lambda: cmp_apply(prog)), guard(lambda: _live_iter(prog)), guard(lambda: _hv_truth(prog)), guard(lambda: cond_fold(prog)), guard(lambda: _domain_given(prog)), guard(lambda: hv_ident(prog)), guard(lambda: _ident_dedup(prog)), guard(lambda: _pred_once(prog)), guard(lambda: iter_text(prog))]
